@@ -190,3 +190,44 @@ Theorem dynamic_wind_normal_entry_exit :
      ctl s' = CRet v /\ out s' = (2, i) :: out s /\ dk s' = here /\ params s' = params s /\ kont s' = k /\ hp s' = hp s).
 Proof. exact dynamic_wind_normal_entry_exit_lemma. Qed.
 Print Assumptions dynamic_wind_normal_entry_exit.
+
+(** R7RS: before/after thunks are called in the dynamic environment of the call to dynamic-wind.  For every heap a
+    machine run can produce and ANY two of its points: along the wind script, the before thunk of p is run with the
+    parameters in force at p's parent, the after thunk with those in force at p, which for a user dynamic-wind are the
+    parent's again; [run_wevs_runs_thunks_with_envs] says these alists are the ones the machine runs the thunks with *)
+Theorem thunks_run_in_call_environment : forall s here target, reachable s ->
+  here < length (hp s) -> target < length (hp s) ->
+  Forall (fun we => snd we = match fst we with
+                             | WIn p => point_params (hp s) (parent (hp s) p)
+                             | WOut p => point_params (hp s) p
+                             end)
+         (wevs_envs (hp s) (wind_script (hp s) here target) (point_params (hp s) here))
+  /\ (forall p, 0 < p -> p < length (hp s) -> silent (pin (hget (hp s) p)) ->
+        point_params (hp s) p = point_params (hp s) (parent (hp s) p)).
+Proof. exact thunks_run_in_call_environment_reachable. Qed.
+Print Assumptions thunks_run_in_call_environment.
+
+Theorem run_wevs_runs_thunks_with_envs : forall h ws pa o,
+  snd (run_wevs h ws pa o) =
+  fold_left (fun o' we => snd (run_actions (thunk_of h (fst we)) (snd we) o')) (wevs_envs h ws pa) o.
+Proof. exact run_wevs_uses_envs. Qed.
+Print Assumptions run_wevs_runs_thunks_with_envs.
+
+(** ------------------------------------------------------------------------------------------------ the whole trace *)
+From ChibiV Require Import C06.TraceProofs.
+
+(** GLOBAL wind order.  [windf] keeps the before/after-thunk events (kinds 1, 2) of a trace; [move_winds s s'] is the list of
+    such events of the R7RS wind script from the extent of the continuation of s to that of s' ([script_winds] of
+    [wind_script]); [run_moves] concatenates them over the steps of a run.  For every script and every number of steps, the
+    before/after events in the machine's trace are exactly that concatenation: nothing else ever runs a before or after
+    thunk, and every change of extent — entering or leaving a dynamic-wind normally, invoking a continuation, a handler or
+    a guard escaping or re-entering — runs exactly the script between the two extents. *)
+Theorem machine_wind_trace : forall n e,
+  windf (out (run_impl n (init e))) = run_moves travel_to_point n (init e).
+Proof. exact machine_wind_trace_lemma. Qed.
+Print Assumptions machine_wind_trace.
+
+Theorem machine_step_winds : forall s, reachable s ->
+  windf (out (step_impl s)) = move_winds s (step_impl s) ++ windf (out s).
+Proof. exact machine_step_winds_lemma. Qed.
+Print Assumptions machine_step_winds.
